@@ -727,6 +727,7 @@ class Cache:
                     begin = True
                     self._txn_id = tid
                     self._txn_filenames = filenames
+                    self._txn_created = []
                     break
                 except sqlite3.OperationalError:
                     if retry:
@@ -735,6 +736,9 @@ class Cache:
                         _disk_remove(filename)
                     raise Timeout from None
 
+        if filename is not None:
+            self._txn_created.append(filename)
+
         try:
             yield sql, filenames.append
         except BaseException:
@@ -742,6 +746,8 @@ class Cache:
                 assert self._txn_id == tid
                 self._txn_id = None
                 sql('ROLLBACK')
+                for name in self._txn_created:
+                    _disk_remove(name)
             raise
         else:
             if begin:
